@@ -184,7 +184,7 @@ func genCase(t *rapid.T) Case {
 		}
 		c.Items = append(c.Items[:pos:pos], append([]midiref.Item{{Msg: m}}, c.Items[pos:]...)...)
 	}
-	c.Chunks = live.Chunking(t, midiref.Serialise(c.Items), 5000)
+	c.Chunks = live.ChunkingToLastStamp(t, midiref.Serialise(c.Items), 5000)
 	c.SameDriver = rapid.Bool().Draw(t, "sameDriver")
 	if c.SameDriver {
 		c.Order = rapid.Permutation([]int{0, 1, 2, 3, 4, 5, 6, 7}).Draw(t, "order")
